@@ -29,10 +29,10 @@ import (
 // ---------------------------------------------------------------- abstraction function
 
 const (
-	sdRetNotCalled = 0
-	sdRetWaiting   = 1
-	sdRetNil       = 2
-	sdRetErr       = 3 // refused at once (ErrShutdownNonEstablished) or any other error
+	sdRetNotCalled  = 0
+	sdRetWaiting    = 1
+	sdRetNil        = 2
+	sdRetErr        = 3 // refused at once (ErrShutdownNonEstablished) or any other error
 	sdRetIncomplete = 4 // ErrShutdownIncomplete: the association closed before the sequence completed
 )
 
@@ -91,16 +91,16 @@ func sdExtDrop(s *sim) {
 }
 
 type sdSnap struct {
-	state                  uint32
+	state                        uint32
 	wsd, wsa, wsc, scp, done, t2 bool
-	pend, infl, ack, ret   int
-	down                   bool
-	cumAck, nextTSN        uint32
-	t2n                    uint
-	ackTO, t3TO            uint64
-	inflTSNs               map[uint32]bool
-	peerLast               uint32
-	maxPayload             uint32
+	pend, infl, ack, ret         int
+	down                         bool
+	cumAck, nextTSN              uint32
+	t2n                          uint
+	ackTO, t3TO                  uint64
+	inflTSNs                     map[uint32]bool
+	peerLast                     uint32
+	maxPayload                   uint32
 }
 
 func sdSnapshot(s *sim, side int) sdSnap {
